@@ -1,5 +1,5 @@
 (* C15 - proofs, group C (Interval's verified branch-and-bound, then induction / case analysis by hand):
-   Schwefel (per-coordinate bound + induction, n <= 3000), Michalewicz (ten per-term bounds; n = 2, 5, 10),
+   Schwefel (per-coordinate bound + induction, every n), Michalewicz (ten per-term bounds; n = 2, 5, 10),
    GramacyLee, XinSheYang2 (last coordinate), Schubert (1-D bounds of its factor), SixHump (2-D). *)
 From Coq Require Import Reals List Lia Lra Psatz.
 From Interval Require Import Tactic.
@@ -16,17 +16,23 @@ Ltac boxes_inv := repeat match goal with
 Lemma schwefel_well_defined : forall c : R, 0 <= Rabs c.
 Proof. exact Rabs_pos. Qed.
 
-Lemma schwefel_term_lower : forall c, -500 <= c <= 500 -> - (33 / 100000000) <= schwefel_term c.
-Proof. intros c H. unfold schwefel_term, schwefel_alpha. interval with (i_bisect c, i_autodiff c, i_depth 40). Qed.
-
-Lemma schwefel_term_opt : - (33 / 100000000) <= schwefel_term (4209687 / 10000) <= 0.
-Proof. unfold schwefel_term, schwefel_alpha. split; interval. Qed.
-
-(* for every dimension: the coded formula never goes below -3.3e-7 per coordinate *)
-Lemma schwefel_lower : forall x, in_box (-500) 500 x -> INR (length x) * - (33 / 100000000) <= schwefel x.
+Lemma schwefel_term_lower : forall c, -500 <= c <= 500 -> 0 <= schwefel_term c.
 Proof.
-  intros x F. unfold schwefel. apply sum_map_lower. unfold in_box in F.
-  eapply Forall_impl; [| exact F]. intros c Hc. apply schwefel_term_lower. exact Hc.
+  intros c H. unfold schwefel_term, schwefel_alpha.
+  interval with (i_bisect c, i_autodiff c, i_depth 70, i_prec 100).
+Qed.
+
+Lemma schwefel_term_opt : 0 <= schwefel_term (4209687 / 10000) <= 3 / 10000000000.
+Proof. unfold schwefel_term, schwefel_alpha. split; interval with (i_prec 100). Qed.
+
+(* for EVERY dimension: with the full-precision alpha the coded formula is non-negative on the box *)
+Lemma schwefel_lower : forall x, in_box (-500) 500 x -> 0 <= schwefel x.
+Proof.
+  intros x F. unfold schwefel.
+  assert (INR (length x) * 0 <= sum_map schwefel_term x) as L.
+  { apply sum_map_lower. unfold in_box in F.
+    eapply Forall_impl; [| exact F]. intros c Hc. apply schwefel_term_lower. exact Hc. }
+  lra.
 Qed.
 
 Lemma schwefel_opt_value : opt_value_stmt schwefel_b.
@@ -38,8 +44,8 @@ Qed.
 
 Lemma schwefel_opt_bound : opt_bound_stmt schwefel_b.
 Proof.
-  intros n x [Hn Hm] Hx. simpl in *. apply in_boxes_cube in Hx. destruct Hx as [L F]. subst n.
-  apply nb_min_tol. pose proof (schwefel_lower x F). unfold tol. lra.
+  intros n x [Hn Hm] Hx. simpl in *. apply in_boxes_cube in Hx. destruct Hx as [L F].
+  apply nb_min, schwefel_lower. exact F.
 Qed.
 
 (* ---------------------------------------------------------------- GramacyLee *)
